@@ -33,7 +33,9 @@ ASSUMPTIONS = ['tzid_from_dt(dt) and dt.astimezone(UTC) are library calls: their
                'but not inside a list); lists of one kind; inside VTIMEZONE plain ASCII text and no parameters except on '
                'TZNAME (the zoneinfo provider re-reads the text with dateutil.tz.tzical: C12)']
 
-ZONES = ['Europe/Berlin', 'America/New_York', 'Asia/Kolkata', 'Australia/Lord_Howe']
+ZONES = ['Europe/Berlin', 'America/New_York', 'Asia/Kolkata', 'Australia/Lord_Howe',
+         # zones that are on GMT / offset zero for part or all of the year: still zones of their own, not UTC
+         'Europe/London', 'Africa/Abidjan', 'Atlantic/Reykjavik', 'Europe/Lisbon']
 
 # ---------------------------------------------------------------------------------------------------------
 # the spec side in Python: RFC 5545 sections 3.7-3.8, transcribed independently of the Lean table
@@ -678,6 +680,8 @@ class Rec:
 
 
 def rand_text_value(rng):
+    if rng.random() < 0.08:
+        return rng.choice(['', '0', ' '])           # empty / falsy-looking texts are values like any other
     s = gen.rand_text(rng, 30, wide=0.1).replace('\r', '').replace('\\N', 'N')
     return ''.join(c for c in s if (ord(c) >= 32 or c == '\n') and ord(c) != 127 and not (0xD800 <= ord(c) <= 0xDFFF))
 
@@ -750,7 +754,7 @@ def rand_supply(rng, name):
     if t == 'TEXT':
         return 'text', rand_text_value(rng), ['TEXT']
     if t == 'INTEGER':
-        return 'int', rng.randint(-10 ** 6, 10 ** 9), ['INTEGER']
+        return 'int', (0 if rng.random() < 0.15 else rng.randint(-10 ** 6, 10 ** 9)), ['INTEGER']
     if t == 'URI':
         tail = ''.join(rng.choice('abc/?=&~.:;,%2C\\') for _ in range(rng.randint(0, 12)))
         return 'uri', 'https://example.com/' + tail, ['URI']
@@ -1308,6 +1312,28 @@ def witnesses(ctx):
                  [Rec('X-FLAG', 'bool', True, {'VALUE': 'BOOLEAN'}, ['BOOLEAN'], [])])
 
 
+def fixed_trees(ctx):
+    """hand-picked trees that must simply round-trip (no finding attached): repeated properties whose first value
+    is empty or zero, values on GMT that are not UTC"""
+    from icalendar.timezone import tzp
+    def rep(c):
+        c.add('comment', '')
+        c.add('comment', 'second')
+        c.add('comment', '')
+    witness_tree(ctx, 'fixed:empty-first-repeat', 'VEVENT', rep,
+                 [Rec('COMMENT', 'text', '', {}, ['TEXT'], []), Rec('COMMENT', 'text', 'second', {}, ['TEXT'], []),
+                  Rec('COMMENT', 'text', '', {}, ['TEXT'], [])])
+    def rep0(c):
+        c.add('x-count', '0')
+        c.add('x-count', '7')
+    witness_tree(ctx, 'fixed:zero-first-repeat', 'VTODO', rep0,
+                 [Rec('X-COUNT', 'text', '0', {}, ['TEXT'], []), Rec('X-COUNT', 'text', '7', {}, ['TEXT'], [])])
+    for zone, mo in (('Europe/London', 1), ('Africa/Abidjan', 7), ('Atlantic/Reykjavik', 3), ('Europe/London', 7)):
+        v = tzp.localize(datetime(2025, mo, 15, 9, 30), zone)
+        witness_tree(ctx, f'fixed:gmt-zone:{zone}:{mo}', 'VEVENT', lambda c, v=v: c.add('dtstart', v),
+                     [Rec('DTSTART', 'datetime', v, {}, ['DATE-TIME'], [zone])])
+
+
 def check_last_set_wins(ctx):
     """a property setter replaces the value: after `c.X = a; c.X = b` the component serialises exactly like a
     fresh component on which only `c.X = b` was done (same VALUE / TZID parameters, same text), and a value
@@ -1376,6 +1402,7 @@ def oracle(ctx):
         icalendar.use_zoneinfo()
         check_last_set_wins(ctx)
         witnesses(ctx)
+        fixed_trees(ctx)
         types_clause(ctx)
         for provider in ('zoneinfo', 'pytz'):
             if provider == 'pytz':
